@@ -64,6 +64,13 @@ def text(rnd, quick):
                 c = cmd_tostr(av, radix, kind, cell=('tostr', radix, min(ndig(v), 5)))
                 c.prop = 'C15'
                 cmds.append(c)
+    # radices outside 2..=36 must panic; if one ever returns, the String must still be valid text
+    for radix in (37, 62, 64, 100, 128, 200, 255, 256, 257, 1 << 16):
+        for v in (0x29, 0xff, M64, rand_digits(rnd, 3, 0), (1 << 200) - 1):
+            for kind, av in (('U', v), ('I', -v)):
+                c = cmd_tostr(av, radix, kind, cell=('tostr-badradix', radix))
+                c.prop = 'C15'
+                cmds.append(c)
     for fid in range(0, 40, 3):
         c = cmd_fmt(-rand_digits(rnd, 4, 0), fid, 30, 'I', cell=('fmt', fid))
         c.prop = 'C15'
